@@ -780,6 +780,67 @@ example : (Tab.step { kty := .int, vty := .str, items := [(.int 1, .str ['a'])],
 example : (Tab.step { kty := .int, vty := .str, items := [(.int 1, .str ['a'])], nslots := 5 } (.set (.int 3) (.int 4))).2 = .raised .ValueError := by decide
 example : (Tab.step { kty := .int, vty := .str, items := [(.int 1, .str ['a']), (.int 2, .str ['b'])], nslots := 5 } (.resize 1)).2 = .raised .FormatError := by decide
 
+/-- **C12, Table_Get on an address inside the table's own slot array** (the key object / the value object of an occupied slot; the
+    code as repaired by fix bc940bb).  For every well-formed table and every such address, `get` leaves the table alone and raises
+    exactly what the specification documents for *the object found at that address* taken as a key — nothing for the key object
+    (which finds the value stored beside it), `ValueError` for a value object that is not of the key type, `KeyError` for one that is
+    not a key of the table: an argument that happens to live inside the table is validated like any other argument. -/
+theorem C12_table_get_slot_address (t : Tab) (hw : t.wf) (a : SlotArg) (x : Val) (hx : t.slotObj a = some x) :
+    (t.getSlot a).1 = t ∧ (t.getSlot a).2.exc? = keyExc t.kty t.items x ∧
+    (∀ k, a = .key k → (t.getSlot a).2 = (t.get k).2) := by
+  have hget : ∀ v, (t.get v).1 = t := by
+    intro v; simp only [Tab.get]; repeat' split
+    all_goals rfl
+  cases a with
+  | key k =>
+    simp only [Tab.slotObj] at hx
+    cases hl : t.items.lookup k with
+    | none => simp [hl] at hx
+    | some v =>
+      simp only [hl, Option.map_some, Option.some.injEq] at hx; subst hx
+      have hmem : (k, v) ∈ t.items := by
+        have := List.lookup_eq_some_iff.mp hl
+        obtain ⟨l₁, l₂, h1, _⟩ := this; rw [h1]; simp
+      have hty : k.ty? = some t.kty := hw.2 _ hmem
+      have hc : castTo t.kty k = .ok k := by
+        cases k <;> simp_all [castTo, Val.ty?]
+      have h0 : t.nslots ≠ 0 := fun h => by have := hw.1 h; rw [this] at hmem; cases hmem
+      have hexc := C12_raises_exactly_table t (.get k) hw
+      refine ⟨by simp [Tab.getSlot, hl], ?_, ?_⟩
+      · simp only [Tab.getSlot, hl]
+        simp only [Tab.step, Tab.get, hc, h0, if_false, hl, Tab.spec] at hexc
+        exact hexc
+      · intro k' hk'; cases hk'
+        simp [Tab.getSlot, hl, Tab.get, hc, h0]
+  | val k =>
+    simp only [Tab.slotObj] at hx
+    refine ⟨by simp [Tab.getSlot, hx, hget], ?_, by intro k' hk'; cases hk'⟩
+    simp only [Tab.getSlot, hx]
+    exact C12_raises_exactly_table t (.get x) hw
+
+-- the hypotheses are met, on a well-formed table whose value type is not its key type and on one where the two coincide
+example : Tab.wf { kty := .int, vty := .str, items := [(.int 1, .str ['a'])], nslots := 5 } ∧
+    Tab.slotObj { kty := .int, vty := .str, items := [(.int 1, .str ['a'])], nslots := 5 } (.val (.int 1)) = some (.str ['a']) ∧
+    Tab.slotObj { kty := .int, vty := .str, items := [(.int 1, .str ['a'])], nslots := 5 } (.key (.int 1)) = some (.int 1) := by
+  refine ⟨⟨by simp, by simp [Val.ty?]⟩, by decide, by decide⟩
+example : (Tab.getSlot { kty := .int, vty := .int, items := [(.int 1, .int 2), (.int 2, .int 7)], nslots := 5 } (.val (.int 1))).2 = .ok (.val (.int 7)) ∧
+    (Tab.getSlot { kty := .int, vty := .int, items := [(.int 1, .int 2), (.int 2, .int 7)], nslots := 5 } (.val (.int 2))).2 = .raised .KeyError ∧
+    (Tab.getSlot { kty := .int, vty := .int, items := [(.int 1, .int 2), (.int 2, .int 7)], nslots := 5 } (.key (.int 2))).2 = .ok (.val (.int 7)) := by decide
+
+/-- repaired defect (fix bc940bb, was finding KF-C02-get-alias), refuted for the OLD `Table_Get`: the value object of a slot, passed
+    as the key, was answered with the value of the slot it lies in — for a value that is not of the key type (the specification
+    documents `ValueError`) and for one that is not a key of the table (`KeyError`) — no exception at all; the current model raises
+    the documented exception on the same witnesses and leaves the table alone. -/
+theorem C12_table_get_slot_address_refuted :
+    (Tab.getSlotOld { kty := .int, vty := .str, items := [(.int 1, .str ['a'])], nslots := 5 } (.val (.int 1))).2 = .ok (.val (.str ['a'])) ∧
+    keyExc .int [(.int 1, .str ['a'])] (.str ['a']) = some .ValueError ∧
+    Tab.getSlot { kty := .int, vty := .str, items := [(.int 1, .str ['a'])], nslots := 5 } (.val (.int 1)) =
+      ({ kty := .int, vty := .str, items := [(.int 1, .str ['a'])], nslots := 5 }, .raised .ValueError) ∧
+    (Tab.getSlotOld { kty := .int, vty := .int, items := [(.int 1, .int 2)], nslots := 5 } (.val (.int 1))).2 = .ok (.val (.int 2)) ∧
+    keyExc .int [(.int 1, .int 2)] (.int 2) = some .KeyError ∧
+    Tab.getSlot { kty := .int, vty := .int, items := [(.int 1, .int 2)], nslots := 5 } (.val (.int 1)) =
+      ({ kty := .int, vty := .int, items := [(.int 1, .int 2)], nslots := 5 }, .raised .KeyError) := by decide
+
 /-- **C12, Tree: failure is atomic.** -/
 theorem C12_failure_atomic_tree (t t' : Tre) (op : Op) (e : Exc)
     (hk : t.kf op = false) (h : t.step op = (t', .raised e)) : t' = t := by
